@@ -1,5 +1,6 @@
 mod fakecli;
 mod frame;
+mod logs;
 mod memtransport;
 mod sshserver;
 mod tlsserver;
@@ -32,6 +33,7 @@ fn main() {
     }
     match op.as_str() {
         "frame" => frame::main(&opts),
+        "logs" => logs::main(&opts),
         _ => {
             eprintln!("unknown op {op}");
             std::process::exit(2);
